@@ -533,7 +533,7 @@ impl Reg {
 
                 let n_sum = n.iter().sum::<R>();
 
-                let n = (0..self.psi.len())
+                let n = (0..p.len())
                     .map(|idx| {
                         ((c * p[idx] + c_sqrt * (n[idx] - n_sum * p[idx])).round() as Z).max(0) as N
                     })
@@ -555,7 +555,7 @@ impl Reg {
 
                 let n_sum = n.par_iter().sum::<R>();
 
-                let n = (0..self.psi.len())
+                let n = (0..p.len())
                     .map(|idx| {
                         ((c * p[idx] + c_sqrt * (n[idx] - n_sum * p[idx])).round() as Z).max(0) as N
                     })
@@ -568,9 +568,17 @@ impl Reg {
         };
         match delta.cmp(&0) {
             Ordering::Less => {
+                // hand the missing shots to possible outcomes only
                 let delta = delta.unsigned_abs();
-                let delta = (delta >> self.q_num, delta % self.q_mask);
-                for (idx, n) in n.iter_mut().enumerate() {
+                let support = p.iter().filter(|&&p| p > 0.).count().max(1);
+                let delta = (delta / support, delta % support);
+                for (idx, n) in n
+                    .iter_mut()
+                    .zip(p.iter())
+                    .filter(|(_, &p)| p > 0.)
+                    .map(|(n, _)| n)
+                    .enumerate()
+                {
                     *n += delta.0;
                     if idx < delta.1 {
                         *n += 1;
